@@ -90,7 +90,8 @@ PROPS = {
         "level_text": "Declarative end-of-recording formula evaluated against the observed MotionDetected callbacks and the sink trace; exhaustive motion patterns (every offset, the frame at the cap, min=0, max=min) for min,max<=3s x fps<=3, plus random scripts with realistic settings (3/20/9, 10/600/9).",
         "level_note": "Motion bits are the observed listener callbacks, so the oracle is decoupled from the detector.",
         "technique": "declarative trace oracle on monitor sinks + listener callbacks",
-        "jobs": [dict(FSM_JOB, require=FSM_JOB["require"] + ["recordings_with_pre_trigger_write_fault", "pre_trigger_fault_in_a_later_recording", "stalled_streams"])],
+        "jobs": [dict(FSM_JOB, require=FSM_JOB["require"] + ["recordings_with_pre_trigger_write_fault", "pre_trigger_fault_in_a_later_recording", "stalled_streams"]),
+                 {"pkg": "recorder-main", "test": "TestVerif_C01Pipe", "shards": (8, 16), "timeout": (300, 1800), "require": ["pipeline_connections", "motion_files", "connections_with_single_frame_recordings"]}],
     },
     "C04": {
         "title": "A recording starts iff motion persisted, the window is open and storage is OK",
@@ -322,7 +323,7 @@ PROPS = {
         "level_note": "Throttling independence is structural here (the continuous sink is never wrapped); the pipeline job checks it through main.go's wiring.",
         "technique": "offline trace checker + paired-execution comparator on monitor sinks",
         "jobs": [{"pkg": "motion", "test": "TestVerif_C17", "shards": (16, 16), "timeout": (300, 2400), "require": ["test_recordings_while_continuous_sink_fails", "continuous_sink_failures", "continuous_files", "test_recordings_completed", "test_recordings_overlapping_motion_recording"]},
-                 {"pkg": "recorder-main", "test": "TestVerif_C17Pipe", "shards": (8, 16), "timeout": (300, 1800), "require": ["runs_with_frozen_telemetry", "pipeline_runs", "pipeline_continuous_files", "pipeline_test_recordings", "pipeline_runs_after_a_reconnect", "pipeline_runs_with_low_disk", "runs_with_clear_markers", "runs_with_files_shorter_than_a_millisecond"]}],
+                 {"pkg": "recorder-main", "test": "TestVerif_C17Pipe", "shards": (8, 16), "timeout": (300, 1800), "require": ["runs_with_frozen_telemetry", "pipeline_runs", "pipeline_continuous_files", "pipeline_test_recordings", "pipeline_runs_after_a_reconnect", "pipeline_runs_with_low_disk", "runs_with_clear_markers", "runs_with_files_shorter_than_a_millisecond", "finished_recordings_in_the_way_left_alone"]}],
     },
     "C18": {
         "title": "thermal-writer stores every frame once, in order, in well-formed CPTR files",
